@@ -158,6 +158,7 @@ class Interp:
         self.fresh_n = itertools.count()
         self.inputs = {}         # z3 const name -> (const, kind) for model extraction
         self.prune_timeout_ms = prune_timeout_ms
+        self.prune_rlimit = int(os.environ.get('PYVC_PRUNE_RLIMIT', prune_timeout_ms * 4000))
         self.max_paths = max_paths
         self.cur_func = None
         self.cur_contract = None
@@ -387,7 +388,10 @@ class Interp:
         if key in self._feas_cache:
             return self._feas_cache[key][0]
         s = z3.Solver()
-        s.set('timeout', self.prune_timeout_ms)
+        # a deterministic resource limit decides how long a feasibility check may take, NOT the wall clock: the set of explored
+        # paths (and so the verdict) must not depend on how busy the machine is.  The wall-clock timeout is only a safety net.
+        s.set('rlimit', self.prune_rlimit)
+        s.set('timeout', max(20000, self.prune_timeout_ms * 50))
         # quantified lemma axioms only slow a satisfiability check down; dropping them weakens
         # the query, which is sound for pruning (unsat of a subset => unsat of the whole)
         s.add(*[f for f in pc if not z3.is_quantifier(f)])
@@ -1470,6 +1474,10 @@ class Interp:
                 if self.feasible(st_i.pc):
                     yield st_i, C.snapshot_value(self, s_old, st_i, v)
             return
+        if isinstance(node.func, ast.Name) and node.func.id in ('any', 'all') and len(node.args) == 1 and not node.keywords \
+                and isinstance(node.args[0], ast.GeneratorExp) and node.func.id not in st.env:
+            yield from self.ev_any_all_gen(node, st)
+            return
         for st1, f in self.ev(node.func, st):
             if isinstance(f, Raise):
                 yield st1, f
@@ -1829,6 +1837,60 @@ class Interp:
                                 else:
                                     yield from go(i + 1, acc + [v], st4)
             yield from go(0, [], st1)
+
+    def ev_any_all_gen(self, node, st):
+        """any(<gen>) / all(<gen>) over an iterable of known length, element by element with python's short circuit"""
+        want = node.func.id == 'any'
+        ge = node.args[0]
+        if len(ge.generators) != 1 or ge.generators[0].is_async:
+            raise EngineLimit('generator expression shape')
+        g = ge.generators[0]
+        for st1, it in self.ev(g.iter, st):
+            if isinstance(it, Raise):
+                yield st1, it
+                continue
+            items = self.concrete_iter(st1, it)
+            if items is None:
+                raise EngineLimit('%s() over a generator on a symbolic iterable' % node.func.id)
+
+            def go(i, st):
+                if i == len(items):
+                    yield st, SBool(not want)
+                    return
+                for st2, sig in self.assign_target(g.target, items[i], st):
+                    if sig is not NORMAL:
+                        yield st2, Raise(sig[1])
+                        continue
+
+                    def conds(k, st):
+                        if k == len(g.ifs):
+                            yield st, True
+                            return
+                        for st3, c in self.ev(g.ifs[k], st):
+                            if isinstance(c, Raise):
+                                yield st3, c
+                                continue
+                            for st4, b in self.branch(st3, c):
+                                if b:
+                                    yield from conds(k + 1, st4)
+                                else:
+                                    yield st4, False
+                    for st3, ok in conds(0, st2):
+                        if isinstance(ok, Raise):
+                            yield st3, ok
+                        elif not ok:
+                            yield from go(i + 1, st3)
+                        else:
+                            for st4, v in self.ev(ge.elt, st3):
+                                if isinstance(v, Raise):
+                                    yield st4, v
+                                    continue
+                                for st5, b in self.branch(st4, v):
+                                    if b == want:
+                                        yield st5, SBool(want)
+                                    else:
+                                        yield from go(i + 1, st5)
+            yield from go(0, st1)
 
     def concrete_iter(self, st, it):
         """list of values when `it` has a statically known length, else None"""
